@@ -92,13 +92,13 @@ class Alignment:
     first = True
     for char in string:
       if first:
-        if char.isdigit():
+        if char in "0123456789":
           first = False
           continue
         elif char == "*" and len(string) == 1:
           return gfapy.AlignmentPlaceholder()
       else:
-        if char.isdigit():
+        if char in "0123456789":
           continue
         elif char == ",":
           if version == "gfa2":
